@@ -46,9 +46,12 @@ theorem lookup_filter_ne {α β : Type} [BEq α] [LawfulBEq α] (l : List (α ×
 @[simp] theorem fst_alloc (w : PyW) (i : Info) : (w.alloc i).1 = w.next := rfl
 @[simp] theorem spec_alloc (w : PyW) (i : Info) : (w.alloc i).2.spec = w.spec := rfl
 theorem info_alloc (w : PyW) (i : Info) (x : Obj) :
-    (w.alloc i).2.info.lookup x = if x == w.next then some i else w.info.lookup x := by
-  simp [alloc, List.lookup_cons]
-  split <;> rfl
+    (w.alloc i).2.info.lookup x = if x = w.next then some i else w.info.lookup x := by
+  simp only [alloc, List.lookup_cons]
+  by_cases h : x = w.next
+  · subst h; simp
+  · have : (x == w.next) = false := by simpa using h
+    simp [this, h]
 
 @[simp] theorem modOf_setattr (w : PyW) (o : Obj) (n : Name) (v : Obj) (p : Dotted) :
     (w.setattr o n v).modOf p = w.modOf p := rfl
@@ -144,7 +147,7 @@ theorem Good.of_same {spec : List ModSpec} {w w' : PyW} (h : Inv spec w)
   have hm : ∀ p, w'.modOf p = w.modOf p := fun p => by simp [modOf, h4]
   have ha : ∀ o n, w'.getattr o n = w.getattr o n := fun o n => by simp [getattr, h5]
   have hf : ∀ p, w'.findSpec p = w.findSpec p := findSpec_congr h1
-  refine ⟨⟨h1.trans h.spec_eq, ?_, ?_, ?_, ?_, ?_, ?_⟩, by omega, fun p o hp => by rw [hm]; exact hp,
+  refine ⟨⟨h1.trans h.spec_eq, ?_, ?_, ?_, ?_, ?_, ?_⟩, by rw [h2]; exact Nat.le_refl _, fun p o hp => by rw [hm]; exact hp,
     fun o n v hv => by rw [ha]; exact hv, fun p o hp hq => by rw [hm, hp] at hq; simp at hq⟩
   · intro x i hx; rw [h3] at hx; rw [h2]; exact h.info_lt x i hx
   · intro p o hp; rw [hm] at hp; rw [h2]; exact h.mods_lt p o hp
